@@ -7,7 +7,7 @@ from vlib import core, gen
 PROP = "C17"
 META = {
     "technique": "Coq proof over a model of the per-pool rebuild watchers of session_manager.go (program counters, pool OBJECT identity, epoch comparison, dial that may fail, hot-restart swap/park/time-out on the same heap, SessionManager.Close): step-level theorems for every state and invariants over ALL event histories; tie: histories observed on the real SessionManager (hot-restart handler wrapped through sessionManagerHandlers, snapshots under the manager's lock, pool objects identified by pointer) must be accepted by the model run with a deterministic schedule of the unobservable watcher steps, plus an independent oracle",
-    "level_text": "PARTIAL. Proved: from any state in which pool id's watcher waits on the lost session of sm.pools[id], no hot restart in progress, manager open, the watcher's steps wake; timer; (failed dial; timer)^k; successful dial (any k) end with GetStream on that pool succeeding and exactly one session created (C17_heals); hotRestartState pauses the watcher; a watcher whose pool object was swapped out creates nothing (C17_not_twice_guard, identity comparison `sm.pools[id] != pool`); over ALL histories, equal epochs included, no rebuilt session is ever stored into a pool object that is no longer sm.pools[id] (C17_not_twice_full; holds since the repair of the guard — the HotRestart(0) history that refuted it before stays as a regression scenario); GetStream never blocks and fails exactly on a closed session (C17_fail_fast); after cancel, over all histories, watchers create at most as many sessions as were already past their timer, and none once all have returned (C17_close_stops, C17_close_final); the state Close leaves behind — watchers returned, pools closed, parked pools closed (since the repair of Close) — is final: nothing is created by a watcher or by the hot-restart handler over any further history (C17_close_end_quiesces, C17_close_quiesced_forever); after cancel and outside hotRestartState every watcher has a path of its own steps to its return (C17_close_exit_path), whereas at its loop head in hotRestartState it cannot move (C17_close_waits_for_hot_restart: Close waits for the end of the hot restart, measured ~2 s, bounded by C16's checker). Observed only: the rebuild timer fires after rebuildInterval, dials reach a listening server, the client end notices a dead peer, a cancelled context is seen before a fresh timer, goroutine termination (census).",
+    "level_text": "PARTIAL. Proved: from any state in which pool id's watcher waits on the lost session of sm.pools[id], no hot restart in progress, manager open, the watcher's steps wake; timer; (failed dial; timer)^k; successful dial (any k) end with GetStream on that pool succeeding and exactly one session created (C17_heals); hotRestartState pauses the watcher; a watcher whose pool object was swapped out creates nothing (C17_not_twice_guard, identity comparison `sm.pools[id] != pool`); over ALL histories, equal epochs included, no rebuilt session is ever stored into a pool object that is no longer sm.pools[id] (C17_not_twice_full; holds since the repair of the guard — the HotRestart(0) history that refuted it before stays as a regression scenario); GetStream never blocks and fails exactly on a closed session (C17_fail_fast); after cancel, over all histories, watchers create at most as many sessions as were already past their timer, and none once all have returned (C17_close_stops, C17_close_final); SessionManager.Close is modelled statement by statement in the order of the code (cancelFunc; wg.Wait; one critical section closing pools and parked pools) and the hot-restart handler ignores events once the context is cancelled: for ALL histories, whenever Close has returned every watcher has returned, every pool's session is closed and nothing is parked (C17_close_returned_full — the proof depends on wg.Wait preceding the closing section; C17_example_close_order shows the swapped order returning with a live session), and that state is final: nothing is created by a watcher or by the handler over any further history (C17_close_quiesced_forever, C17_hr_event_after_cancel); after cancel and outside hotRestartState every watcher has a path of its own steps to its return (C17_close_exit_path), whereas at its loop head in hotRestartState it cannot move (C17_close_waits_for_hot_restart: Close waits for the end of the hot restart, measured ~2 s, bounded by C16's checker). Observed only: the rebuild timer fires after rebuildInterval, dials reach a listening server, the client end notices a dead peer, a cancelled context is seen before a fresh timer, goroutine termination (census).",
     "level_note": "Trusted: coqc kernel; the hand-written model (tied by accepted histories of 7 scenario kinds per round); the acceptor's deterministic schedule of unobservable watcher steps (immediate reactions right after each observed event; timer + dial exactly when a rebuilt session is observed); Go runtime timers/scheduling. C17_heals is stated without interference on that pool between loss and rebuild (interference by hot restart is covered by the not_twice / paused theorems). The watcher blocks in select on the session it loaded: a NEW-epoch session lost while the parked old session is still open is only noticed when the old one closes (model and code agree; not part of the property's statement).",
 }
 
@@ -39,6 +39,8 @@ def ev_to_coq(e):
         return "OHRTick"
     if k == "timeout":
         return "OHRTimeout"
+    if k == "timer":
+        return "OTimer " + n(e["i"])
     if k == "closebegin":
         return "OCloseBegin"
     if k == "closeend":
@@ -60,6 +62,7 @@ CODES = {1: "manager state", 2: "manager epoch", 3: "pool object behind a pool i
          5: "reserve pools", 20: "event not enabled in the model", 23: "GetStream result differs",
          24: "a rebuilt session was observed but the model's watcher is not waiting for its rebuild timer",
          25: "the rebuilt session was stored into another pool object than the model's watcher holds",
+         27: "SessionManager.Close returned although the model's Close cannot (wg.Wait: a watcher has not returned)",
          26: "a rebuilt session was observed where the model's watcher does not rebuild (pool-identity guard)"}
 
 
